@@ -403,8 +403,13 @@ class Gen:
     def macro_def(self, fr: Frame, depth: int) -> dict:
         r = self.rng
         nm = self.name("mac")
-        ps = [self.name("pr") for _ in range(r.randint(0, 3))]
-        blockparams = [p for p in ps if r.random() < 0.2]
+        ps = []
+        outer_consts = [n for n in self.visible_consts(fr) if n.startswith("cn")]
+        for _ in range(r.randint(0, 3)):
+            # a parameter may carry the name of a constant of the call sites: arguments still mean the call site's names
+            cand = r.choice(outer_consts) if outer_consts and r.random() < 0.3 else None
+            ps.append(cand if cand and cand not in ps else self.name("pr"))
+        blockparams = [p for p in ps if p.startswith("pr") and r.random() < 0.2]     # a block parameter keeps a name of its own
         child = Frame("macro_body", fr)
         child.in_macro = True
         child.consts = [p for p in ps if p not in blockparams]
